@@ -778,7 +778,7 @@ class Interp:
                 return _apply(op, a, b)
             except Exception as ex:
                 raise Raised(type(ex).__name__, node, str(ex))
-        if isinstance(op, ast.Add) and (isinstance(a, BytesV) or isinstance(b, BytesV)):
+        if isinstance(op, ast.Add) and (isinstance(a, (BytesV, BufV)) or isinstance(b, (BytesV, BufV))):
             ca, cb = _as_bytesv(a), _as_bytesv(b)
             if ca is not None and cb is not None:
                 return BytesV(ca.bytes + cb.bytes)
@@ -1262,6 +1262,16 @@ class Interp:
             k = _int(args[0])
             if _hashable_const(k):
                 return recv.get(k, args[1] if len(args) > 1 else None)
+        if isinstance(recv, (bytes, bytearray)) and name == "join" and len(args) == 1 and isinstance(args[0], (list, tuple)):
+            parts = [_as_bytesv(x) for x in args[0]]
+            if all(p is not None for p in parts):
+                sep = _as_bytesv(recv)
+                out = []
+                for i, p in enumerate(parts):
+                    if i:
+                        out.extend(sep.bytes)
+                    out.extend(p.bytes)
+                return BytesV(out)
         if isinstance(recv, (str, bytes)) and all(_pyconst(a) for a in args) and not kwargs:
             try:
                 return getattr(recv, name)(*args)
@@ -1399,6 +1409,8 @@ _OPS = {"Eq": ast.Eq, "NotEq": ast.NotEq, "Lt": ast.Lt, "LtE": ast.LtE, "Gt": as
 def _as_bytesv(v):
     if isinstance(v, BytesV):
         return v
+    if isinstance(v, BufV) and v.length is not None and v.length <= 4096:
+        return BytesV([[("s", v.start + k, i) for i in range(8)] for k in range(v.length)])
     if isinstance(v, (bytes, bytearray)):
         return BytesV([[(x >> i) & 1 for i in range(8)] for x in v])
     return None
